@@ -225,6 +225,24 @@ def rule_memoisation(ctx: Ctx, out: Collector) -> None:
                             and body_expr.attr in pif:
                         ok = True
                         field_name = body_expr.attr
+                    if not ok:
+                        # whatever the getter is written as (operator.attrgetter, a partial, a function with several statements):
+                        # evaluated and called with a manager whose per-run fields hold distinct objects, it hands out one of them
+                        try:
+                            from ..absint import AObj as _AObj, Interp as _Interp, Oracle as _Oracle, enumerate_outcomes as _enum
+
+                            def _run(oracle):
+                                it = _Interp(p, oracle)
+                                mobj = _AObj(mgr, {f_: _AObj(('ext', 'Field'), {}, tag=f'field:{f_}') for f_ in pif})
+                                fn = it.eval(getter, {'__module__': m.module, '__unit__': None, '__closure__': None})
+                                got = it.call(fn, [mobj], {}, getter)
+                                return next((f_ for f_ in pif if mobj.attrs[f_] is got), None)
+                            outs = _enum(_run)
+                            names_ = {o[1] for o in outs if o[0] == 'value'}
+                            if outs and all(o[0] == 'value' for o in outs) and len(names_) == 1 and None not in names_:
+                                ok, field_name = True, next(iter(names_))
+                        except Exception:
+                            pass
                     if ok:
                         out.ok('SH-5', cons, p.loc(m, dec), f'cache lives in the per-run field {field_name}')
                     else:
